@@ -5,6 +5,8 @@ import CSD.Generated.Bodies
 import CSD.Model.SourceText
 import CSD.Lemmas.PFCMeta
 import CSD.Lemmas.FM17
+import CSD.Lemmas.RPDAC2
+import CSD.Lemmas.RPFC3
 
 namespace CSD.Props.C15
 open CSD CSD.PFC
@@ -59,5 +61,13 @@ theorem models_match_source_text :
 theorem fmindex_metadata (S : List Str) (step : Nat) :
     (FM.buildDict S step).elements = S.length ∧ ∀ s ∈ S, s.length < (FM.buildDict S step).maxlength :=
   ⟨rfl, FM.maxlength_buildDict S step⟩
+
+/-- RPFC and RPDAC report the number of strings supplied: every object that stores (represents) `S` — the
+hypothesis re-validated on every exported object, built and reloaded — has `elements = |S|`, and the table scans
+of C13 yield exactly that many strings. -/
+theorem rpfc_rpdac_numElements {S : List Str} {dR : RPFC.D} (hR : RPFC.Stores S dR)
+    {dD : RPDAC.D} (hD : RPDAC.Represents dD S) :
+    dR.elements = Spec.numElements S ∧ dD.seqs.length = Spec.numElements S :=
+  ⟨hR.elements, hD.len⟩
 
 end CSD.Props.C15
